@@ -154,6 +154,17 @@ impl QuicRouter {
     }
 }
 
+#[cfg(gmquic_verif)]
+impl QuicRouter {
+    /// Verification hook (read-only): the identity (address) of the packet queue a signpost is
+    /// currently routed to, if any.
+    pub fn verif_route(&self, signpost: &Signpost) -> Option<usize> {
+        self.table
+            .get(signpost)
+            .map(|queue| Arc::as_ptr(&*queue) as usize)
+    }
+}
+
 impl Default for QuicRouter {
     fn default() -> Self {
         Self::new()
